@@ -119,7 +119,8 @@ def resource_limit_key(key, what, text):
         d -= ch == "}"
         depth = max(depth, d)
     chained_aliases = len(re.findall(r"^\s*type \w+ = \w+\[", text, re.M))
-    if "RecursionError" in key and (depth >= 150 or chained_aliases >= 150):
+    chained_messages = len(re.findall(r"^message R\d+ \{ R\d+ f = 1", text, re.M))
+    if "RecursionError" in key and (depth >= 150 or chained_aliases >= 150 or chained_messages >= 150):
         return "recursion-limit"
     if "ValueError" in key and "Exceeds the limit" in what and chained_aliases >= 100 and "[65535]" in text:
         return "alias-size-beyond-print-limit"
@@ -131,6 +132,10 @@ def structured(rng):
     r = rng.randrange(11)
     if r == 9:
         # beyond the interpreter's recursion limit (known finding recursion-limit) and just below it
+        if rng.random() < 0.3:
+            # nesting by reference: every message holds the previous one (brace depth 1; -O inlines the whole chain recursively)
+            n = rng.choice([100, 250])  # (-O inlining is quadratic in the chain length and the contracts on nbits make it worse: 500 links, where the recursion limit is, cost more CPU in the executor than the hang criterion allows - the known finding is classified if a fuzzer gets there, not drawn)
+            return "proto p\nmessage R0 { bool b = 1 }\n" + "".join(f"message R{k} {{ R{k - 1} f = 1; uint3 x = 2 }}\n" for k in range(1, n))
         if rng.random() < 0.5:
             # (rendering is quadratic in the depth: ~27 s of CPU for all five renders at 450 levels, which is slow, not a hang - the depths
             # stay clear of that region on both sides)
@@ -220,7 +225,7 @@ def worker(ctx):
     class Executor:
         """The real parser/renderers run in a child process; the watchdog lives here, outside (see props/c09_exec.py)."""
 
-        CPU_LIMIT = 20.0  # seconds of CPU the child may burn on ONE input (normal: 0.03 s)
+        CPU_LIMIT = 40.0  # seconds of CPU the child may burn on ONE input (normal: 0.03 s; the slowest hostile shape, contracts on: ~15 s)
 
         def __init__(self):
             self.p = None
@@ -437,7 +442,7 @@ if __name__ == "__main__":
               "damage of the UTF-8 file (Latin-1, UTF-16/32, BOMs, truncated sequences, stray high bytes, surrogates, NULs) written to a main file or to an "
               "imported file and parsed from disk; random token strings; truncation at every kind of token boundary; hostile structured shapes (400-component dotted "
               "names, 120-deep message nesting, 400-deep parentheses, 2000-term expressions, integers around the host's print limit (4000/5000-digit decimals, 3500/4000-digit hex, products, sums at the limit) in every position that takes an integer, 300-field messages, empty/500-member "
-              "enums, alias chains); every accepted text is rendered for c, go, py and (when traditional) c -O, go -O; the parser runs in an executor child process watched from outside: 20 s of CPU time on one input, twice, is a hang; the real CLI is sampled for tracebacks; an evaluation = one input text; distinct_nontrivial counts accepted "
+              "enums, alias chains); every accepted text is rendered for c, go, py and (when traditional) c -O, go -O; the parser runs in an executor child process watched from outside: 40 s of CPU time on one input, twice, is a hang; the real CLI is sampled for tracebacks; an evaluation = one input text; distinct_nontrivial counts accepted "
               "inputs that were rendered plus distinct parser error classes provoked"),
         assumptions=["an import of a missing file is an OSError and allowed",
                      "coverage-guided fuzzing (atheris) runs only in the thorough tier"],
